@@ -31,6 +31,7 @@ def parseEv (h n : Nat) (t : String) : Option Label :=
       if k = 'c' ∧ i < n then some (.call i)
       else if k = 'r' ∧ i < h then some (.release i)
       else if k = 'd' ∧ i < n then some (.drop i)
+      else if k = 'p' ∧ i < h then some (.panic i)
       else none
     | none => none
   | [] => none
